@@ -1,6 +1,7 @@
 """C05 Reference counts / GC — structural clause: edge linearity (E-LIN)."""
 import ecount
 import eptr
+import eslot
 import eidx
 import eswap
 import ewho
@@ -131,6 +132,11 @@ def run(ctx):
     ewho.check_gate_initial(ctx, F)
     ctx.explain("E-COUNT.underflow: no unsigned local that starts at the literal 0 is only ever decremented (it would underflow at its "
                 "first update); detector checked against a built-in positive example on every run.")
+    ctx.explain("E-SLOT.bound: where a function compares an index with the slot array's length and then uses get_unchecked(index), "
+                "the call is unreachable once the CFG edges that establish index < len are removed (a `<=` or flipped test lets the "
+                "bump allocator write one slot past the allocation).")
+    nsb = eslot.run(ctx, F)
+    ctx.floor("E-SLOT.bound", "get_unchecked calls with a local length comparison", nsb, 2)
     ecount.run(ctx, F, ('oxidd_manager_index', 'oxidd_manager_pointer', 'arcslab'))
     ctx.not_decided = ("exactness of counts over histories; the unsafe internals of the managers; "
                        "capacity restoration after gc")
